@@ -114,8 +114,8 @@ Definition rs_inv (s : rstate) : Prop :=
 
 Lemma run_test_inv l t b s : scan0 (rs_ev s) = (false, true) -> rs_stop s = false -> rs_inv (run_test w o l t b s).
 Proof.
-  intros Hs Hstop. unfold run_test.
-  destruct (fold_effect w o l t (proto b) s) as [_ [F2 [F3 [_ [F5 [F6 F7]]]]]].
+  intros Hs Hstop.
+  destruct (run_test_effect w o l t b s) as [_ [F2 [F3 [_ [F5 [F6 F7]]]]]].
   exists (bad_b b). split.
   - rewrite F7. unfold scan0 in *. rewrite scan_app, Hs. apply test_scan.
   - intros Hb. rewrite F6, F2, F3, F5, Hstop, Hx. unfold bad_b in Hb. rewrite Hb. split; [reflexivity|].
